@@ -62,7 +62,11 @@ method("_complete_batch_send", "(%s, resp: Optional[Ref_Failure]) -> None" % SEL
        ensures={"batch-resolved[C09]": "self._batch_send_d is None and self._req_attempts == 0 and "
                                        "self._retry_interval == self._init_retry_interval"})
 
-method("_cancel_outstanding", "(%s) -> None" % SELF, props=["C19"], modifies=ALL, inline_only=True)
+method("_cancel_outstanding", "(%s) -> None" % SELF, props=["C19", "C01"], modifies=ALL,
+       # C19/C01: stop() fails every outstanding send: the loop runs over a COPY of the list (cancelling a send removes it
+       # from the live list), and each iteration leaves its Deferred fired
+       loops={"for#1": dict(index="i", inv=["True"])},
+       checkpoints={"iteration-end:for#1": {"this-send-has-been-failed[C19, C01]": "called(d)"}})
 
 method("stop", "(%s) -> Optional[Ref_Deferred]" % SELF, props=["C19", "C01"],
        checkpoints={"fire:cancel#1": {"stopping-set-before-anything-is-cancelled[C19]": "self.stopping"},
@@ -71,7 +75,14 @@ method("stop", "(%s) -> Optional[Ref_Deferred]" % SELF, props=["C19", "C01"],
 method("_send_timer_stopped", "(%s, lCall: Any) -> None" % SELF, props=["C19"],
        ensures={"cleared[C19]": "self._sendLooper is None and self._sendLooperD is None"})
 
-method("_remove_from_outstanding", "(%s, result: Any, d: Ref_Deferred) -> Any" % SELF, props=["C01"], inline_only=True)
+method("_remove_from_outstanding", "(%s, result: Any, d: Ref_Deferred) -> Any" % SELF, props=["C01", "C19"],
+       raises={"ValueError": "iff:d not in self._outstanding"},
+       ensures={"removed-once[C19]": "len(self._outstanding) == len(old(self._outstanding)) - 1"})
+
+method("_send_timer_failed", "(%s, fail: Ref_Failure) -> None" % SELF, props=["C19"],
+       inv_exempt_at_entry=["looper-running"],
+       requires=["self._sendLooper is not None", "not running(self._sendLooper)", "self.batch_every_t is not None"],
+       ensures={"timer-restarted[C19]": "self._sendLooper is not None and running(self._sendLooper)"})
 
 
 # ---- closures of _handle_send_response (C01 / C09) ----------------------------------------------------------
